@@ -10,6 +10,7 @@ import (
 	"bytes"
 	"fmt"
 	"sync"
+	"sync/atomic"
 	"time"
 
 	"github.com/thushan/olla/verifharness/backend"
@@ -59,17 +60,20 @@ func runConc(c ConcCase) []ev.Violation {
 	}
 	var mu sync.Mutex
 	desc := fmt.Sprintf("engine=%s profile=%s framing=%s ct=%s body sizes %v, %d concurrent clients", c.Engine, c.Profile, c.Framing, c.CT, c.Sizes, c.Clients)
-	for round := 0; round < c.Rounds && len(vs) == 0; round++ {
-		var wg sync.WaitGroup
-		start := make(chan struct{})
-		for k := 0; k < c.Clients; k++ {
-			wg.Add(1)
-			go func() {
-				defer wg.Done()
-				<-start
+	// continuous load: every client sends its requests back to back, so that requests start while
+	// others finish (whatever is handed back and taken again between requests is under contention)
+	var stop atomic.Bool
+	var wg sync.WaitGroup
+	start := make(chan struct{})
+	for k := 0; k < c.Clients; k++ {
+		wg.Add(1)
+		go func() {
+			defer wg.Done()
+			<-start
+			for round := 0; round < c.Rounds && !stop.Load(); round++ {
 				resp, err := rawclient.Do(r.S.Addr, req, 30*time.Second)
 				if err != nil || resp.Status != 200 {
-					return
+					continue
 				}
 				id := resp.Get("X-Backend-Id")
 				w, ok := want[id]
@@ -97,12 +101,13 @@ func runConc(c ConcCase) []ev.Violation {
 					mu.Lock()
 					vs = append(vs, *v)
 					mu.Unlock()
+					stop.Store(true)
 				}
-			}()
-		}
-		close(start)
-		wg.Wait()
+			}
+		}()
 	}
+	close(start)
+	wg.Wait()
 	rec.Eval(c.Rounds * c.Clients)
 	rec.Class("concurrent-responses")
 	big := false
@@ -142,12 +147,12 @@ func genConc(t *rapid.T) ConcCase {
 		Profile: rapid.SampledFrom([]string{"auto", "streaming", "standard"}).Draw(t, "profile"),
 		Framing: rapid.SampledFrom([]string{"cl", "chunked"}).Draw(t, "framing"),
 		CT:      rapid.SampledFrom([]string{"application/json", "text/event-stream", "application/octet-stream"}).Draw(t, "ct"),
-		Clients: rapid.SampledFrom([]int{2, 4, 8, 16}).Draw(t, "clients"),
-		Rounds:  rapid.IntRange(1, 4).Draw(t, "rounds"),
+		Clients: rapid.SampledFrom([]int{2, 8, 16, 32, 32}).Draw(t, "clients"),
+		Rounds:  rapid.IntRange(4, 30).Draw(t, "rounds"),
 	}
 	n := rapid.IntRange(2, 3).Draw(t, "backends")
 	for i := 0; i < n; i++ {
-		c.Sizes = append(c.Sizes, rapid.SampledFrom([]int{1000, 70000, 300000, 1 << 20, 2 << 20}).Draw(t, "size"))
+		c.Sizes = append(c.Sizes, rapid.SampledFrom([]int{1000, 20000, 70000, 70000, 300000, 1 << 20, 2 << 20}).Draw(t, "size"))
 	}
 	return c
 }
